@@ -287,6 +287,11 @@ def check(prop, tier, seed):
         "assumptions": sorted(set(list(getattr(mod, "ASSUMPTIONS", [])) + sorted(eng.assumptions_used))),
         "violations": len(violations),
     }
+    sys.stderr.write("pyvc %s %s: obligations=%d discharged=%d undischarged=%s not_extracted=%d twin_cases=%s twin_failures=%d "
+                     "violations=%d known=%s\n" % (prop, tier, len(obligations), len(discharged),
+                                                   sorted({label_of(r["name"]) for r in failed})[:6], len(not_extracted),
+                                                   twin.get("cases"), len(twin.get("failures", [])), len(violations),
+                                                   sorted(set(known_seen))))
     if broken:
         for b in broken:
             sys.stderr.write("CHECK-BROKEN %s: %s\n" % (prop, b))
